@@ -370,12 +370,12 @@ class _FFT:
         return getattr(self._b, k)
 
     def fft(self, x, n=None, axis=-1, **kw):
-        if has_sym(x):
+        if has_sym(x) or (isinstance(x, np.ndarray) and x.dtype == object):
             return sym_fft(x, n, axis)
         return self._b.fft(x, n, axis, **kw)
 
     def rfft(self, x, n=None, axis=-1, **kw):
-        if has_sym(x):
+        if has_sym(x) or (isinstance(x, np.ndarray) and x.dtype == object):
             return sym_rfft(x, n, axis)
         return self._b.rfft(x, n, axis, **kw)
 
